@@ -1427,7 +1427,38 @@ func genIter(r *hx.Rand, x *iterIn) string {
 func genIterPair(r *hx.Rand, emit func(string), st *hx.Stats) {
 	x := genIterIn(r)
 	y := x
-	switch r.Intn(9) {
+	switch r.Intn(12) {
+	case 9, 10, 11: // exactly one of the hashed lists changes by one element
+		st.Inc("pair-iter-onelist")
+		v := hx.H(append(sbytes(r), 'v'))
+		switch r.Intn(4) {
+		case 0:
+			y.conds = append(append([][]byte{}, x.conds...), hx.MustUnH(v))
+		case 1:
+			x.kind, y.kind = "rut", "rut"
+			if len(x.refs) > 0 && r.Bool() {
+				y.refs = append([]string{}, x.refs[1:]...)
+			} else {
+				y.refs = append(append([]string{}, x.refs...), hx.Pick(r, []string{"0;", "1;", "2;"})+v+";-")
+			}
+		case 2:
+			x.kind, y.kind = "rswu", "rswu"
+			if len(x.uf) > 0 && r.Bool() {
+				y.uf = append([]string{}, x.uf[1:]...)
+			} else {
+				y.uf = append(append([]string{}, x.uf...), v+";-")
+			}
+		default:
+			x.kind, y.kind = "rswu", "rswu"
+			switch {
+			case x.oids == "nil" || x.oids == "[]":
+				y.oids = v
+			case r.Bool():
+				y.oids = x.oids + "," + v
+			default:
+				y.oids = hx.Pick(r, []string{"nil", "[]"})
+			}
+		}
 	case 0: // permuted lists (must be equal)
 		st.Inc("pair-iter-perm")
 		y.conds = shuffled(r, x.conds)
